@@ -1,7 +1,8 @@
 (* C14 — upload slots are bounded and follow the choking policy. *)
 From Coq Require Import Permutation.
-From Rdest Require Import Base Consts Wire Manager MgrProofs.
+From Rdest Require Import Base Consts Wire Manager MgrProofs Handler.
 Open Scope N_scope.
+Definition acts_of_outcome (o : outcome) : list action := match o with HCont _ a | HEnd _ a _ | HPanic a => a end.
 
 (* between rotations: a newcomer's bitfield never takes the regular (non-optimistic) unchoked peers above ten *)
 Theorem C14_bitfield_bound : forall m a bits pick m' r bc sp,
@@ -35,9 +36,25 @@ Theorem C14_rate_order : forall m rates new_opt m' fl,
     p_am_choked pb = false -> p_optimistic pb = false -> ra <= rb.
 Proof. exact rotation_rate_order. Qed.
 
-(* the exactness of the broadcast map (exactly the changes, with the new value) is decided on the real Session by
-   the correspondence oracle policy14 for every rate order with ties; no Coq proof (it depends on
-   new_optimistic_peers choosing among peers we choke, which is not modelled) *)
+(* the choke/unchoke messages correspond exactly to the changes: the map broadcast after a rotation holds, for every
+   peer, its new value exactly when the value changed (the new optimistic picks are taken among peers we choke, as
+   new_optimistic_peers does: it filters on am_choked) ... *)
+Theorem C14_map_exact : forall m rates new_opt m' fl,
+  NoDup (map fst rates) -> NoDup new_opt ->
+  (forall a, In a new_opt -> amc (m_peers m) a = Some true) ->
+  change_conn_state m rates new_opt = Ok (m', fl) ->
+  forall a, match mlook fl a with
+            | Some b => amc (m_peers m') a = Some b /\ amc (m_peers m) a = Some (negb b)
+            | None => amc (m_peers m') a = amc (m_peers m) a
+            end.
+Proof. exact rotation_map_exact. Qed.
+(* ... and each connection task turns its entry of the map into exactly one Choke or Unchoke frame, nothing without one *)
+Theorem C14_messages_follow_map : forall sha1 cf disk ovf s r,
+  acts_of_outcome (hstep sha1 cf disk ovf s (EBroadOwn (Some true)) r) = [ASend Choke] /\
+  acts_of_outcome (hstep sha1 cf disk ovf s (EBroadOwn (Some false)) r) = [ASend Unchoke] /\
+  acts_of_outcome (hstep sha1 cf disk ovf s (EBroadOwn None) r) = [].
+Proof. intros. repeat split. Qed.
+
 Example C14_nonvacuous :
   let p c i := mkpeer None [] None false c i true false None None in
   match change_conn_state (mkmgr [] [(1, p true true); (2, p false false); (3, p true true)] [] 0 false []) [(1, 5); (2, 9); (3, 5)] [] with
@@ -50,3 +67,5 @@ Print Assumptions C14_bitfield_bound.
 Print Assumptions C14_rotation_bound.
 Print Assumptions C14_slots_interested.
 Print Assumptions C14_rate_order.
+Print Assumptions C14_map_exact.
+Print Assumptions C14_messages_follow_map.
